@@ -86,6 +86,9 @@ func childRaft(args []string) {
 	raftCorpusVoteBeforeAppend(out)
 	raftCorpusTwoCandidatesOneTerm(out)
 	raftCorpusDeposedLeaderLearnsByAppend(out)
+	if raftAs == "C05" {
+		raftCorpusLostSnapshot(out)
+	}
 	for t := 0; t < trials; t++ {
 		raftTrial(out, rng.Fork(), t, thorough)
 	}
@@ -631,6 +634,93 @@ func raftCorpusDeposedLeaderLearnsByAppend(out *childOut) {
 			out.Local("deposed leader (log cut back from %d to %d) stopped; a fresh store over its database compared with the stopped one", tailLast, l3)
 		} else {
 			out.Local("the deposed leader's log ends at %d, not at %d: the restart comparison is skipped", l3, prev+1)
+		}
+	}
+	c.teardown()
+}
+
+// corpus: the snapshot for a replica that fell behind a compaction is lost in the network (the send
+// runs into its deadline; nothing is refused). The leader must learn that the transfer failed and send
+// it again: once the faults stop, the replica catches up.
+func raftCorpusLostSnapshot(out *childOut) {
+	out.Begin("corpus a snapshot for a lagging replica is lost in the network")
+	defer out.End()
+	c := newRsCluster(uuid.NewV4(), false, NewRng(17))
+	c.viol = func(p, s, w string) { out.Violate(p, s, w) }
+	peers := []uint64{1, 2, 3}
+	for _, id := range peers {
+		if _, err := c.start(id, peers, fmt.Sprintf("node-%d", id)); err != nil {
+			out.Violate("C05", "C05/start-fails", err.Error())
+			return
+		}
+	}
+	c.node(1).g.VerifCampaign()
+	last := time.Now()
+	if !waitFor(40*time.Second, func() bool {
+		if l := c.leader(); l != nil {
+			return true
+		}
+		if time.Since(last) > 3*time.Second {
+			last = time.Now()
+			c.node(1).g.VerifCampaign()
+		}
+		return false
+	}) {
+		out.Local("no leader within 40 s: scenario not reached")
+		c.teardown()
+		return
+	}
+	lead := c.leader()
+	lag := uint64(3)
+	if lead.id == 3 {
+		lag = 2
+	}
+	c.partition(map[uint64]bool{lag: true})
+	n := 0
+	for i := 0; i < 40; i++ {
+		ctx, cancel := context.WithTimeout(context.Background(), 300*time.Millisecond)
+		if lead.g.Propose(ctx, []byte(fmt.Sprintf("lost-snap-%d", i))) == nil {
+			n++
+		}
+		cancel()
+	}
+	applied := func(id uint64) int {
+		nd := c.node(id)
+		nd.mu.Lock()
+		defer nd.mu.Unlock()
+		return len(nd.applied)
+	}
+	waitFor(10*time.Second, func() bool { return applied(lead.id) >= n })
+	compacted := 0
+	for _, id := range peers {
+		if id == lag {
+			continue
+		}
+		done := make(chan error, 1)
+		go func(nd *rsNode) { done <- nd.g.VerifSnapshotNow() }(c.node(id))
+		select {
+		case err := <-done:
+			if err == nil {
+				compacted++
+			}
+		case <-time.After(3 * time.Second):
+		}
+	}
+	c.mu.Lock()
+	c.holeSnap = map[uint64]int{lag: 1}
+	c.mu.Unlock()
+	c.heal()
+	out.Local("replica %d cut off; %d entries committed; %d replicas compacted their log; links healed, the first snapshot sent to %d gets lost", lag, applied(lead.id), compacted, lag)
+	ok := waitFor(40*time.Second, func() bool { return applied(lag) >= applied(lead.id) && applied(lead.id) >= n })
+	c.mu.Lock()
+	holed := c.counts["fault:snapshot-black-holed"]
+	snaps := c.counts["msg:MsgSnap"]
+	c.mu.Unlock()
+	out.Local("snapshots sent: %d (lost: %d); replica %d applied %d of %d", snaps, holed, lag, applied(lag), applied(lead.id))
+	if compacted > 0 && holed > 0 {
+		out.Nontrivial("lost-snapshot")
+		if !ok {
+			out.Violate("C05", "C05/no-convergence", fmt.Sprintf("replica %d fell behind a compaction; the first snapshot sent to it was lost in the network (the send ran into its deadline); 40 s after all faults stopped it has applied %d of %d entries and %d snapshots were ever sent: the leader was never told that the transfer failed", lag, applied(lag), applied(lead.id), snaps))
 		}
 	}
 	c.teardown()
